@@ -556,6 +556,13 @@ func runC19Seq(ch *core.Chooser, env *Env, out *Outcome) *Outcome {
 		}
 	}
 	firstFault := -1
+	// C19 speaks about queries AFTER a list became unreadable.  A wrong
+	// answer, a changed earlier result or a panic while every list is still
+	// readable is the business of C13/C14 (and C11): the run is left to them.
+	leave := func(what string) {
+		out.Skipped = true
+		out.Probes["anomaly_before_any_fault_left_to_C11_C13_C14:"+what]++
+	}
 	type keptRes struct {
 		i     int
 		res   *workload.Result
@@ -566,6 +573,10 @@ func runC19Seq(ch *core.Chooser, env *Env, out *Outcome) *Outcome {
 		o := &hist[i]
 		var res *workload.Result
 		if perr := safely(func() { res = workload.Exec(e, o) }); perr != "" {
+			if !faulted {
+				leave("panic")
+				return false
+			}
 			rendered = append(rendered, "query "+o.Key()+" -> PANIC")
 			sample()
 			out.Violation = &Violation{Class: "panic:" + opClass(o), Detail: fmt.Sprintf("query %d %s panicked (faulted=%t)\n%s", i, o.Key(), faulted, perr)}
@@ -573,6 +584,10 @@ func runC19Seq(ch *core.Chooser, env *Env, out *Outcome) *Outcome {
 		}
 		var full string
 		if perr := safely(func() { full = res.CanonFull() }); perr != "" {
+			if !faulted {
+				leave("panic")
+				return false
+			}
 			sample()
 			out.Violation = &Violation{Class: "panic:derived:" + opClass(o), Detail: fmt.Sprintf("evaluating the result of query %d %s panicked (faulted=%t)\n%s", i, o.Key(), faulted, perr)}
 			return false
@@ -583,8 +598,7 @@ func runC19Seq(ch *core.Chooser, env *Env, out *Outcome) *Outcome {
 		}
 		if !faulted {
 			if full != truths[i].full {
-				sample()
-				out.Violation = &Violation{Class: "prefault-mismatch:" + opClass(o), Detail: fmt.Sprintf("before any fault, query %d %s\n got:  %s\n want: %s", i, o.Key(), full, truths[i].full)}
+				leave("answer")
 				return false
 			}
 		} else {
@@ -601,6 +615,10 @@ func runC19Seq(ch *core.Chooser, env *Env, out *Outcome) *Outcome {
 		// results handed out earlier must not change, fault or no fault
 		for _, k := range kept {
 			if now := k.res.Canon(); now != k.canon {
+				if !faulted {
+					leave("earlier-result")
+					return false
+				}
 				sample()
 				out.Violation = &Violation{Class: "earlier-result-changed:" + opClass(&hist[k.i]), Detail: fmt.Sprintf("after query %d %s (faulted=%t) the result returned earlier for query %d %s changed\n was: %s\n now: %s", i, o.Key(), faulted, k.i, hist[k.i].Key(), k.canon, now)}
 				return false
@@ -857,7 +875,17 @@ func runC19Conc(ch *core.Chooser, env *Env, out *Outcome) *Outcome {
 		out.Sample["fault_injected_at_step"] = injectedAt
 		out.Sample["trace"] = renderTrace(res.Trace, 300)
 	}
+	// C19 speaks about queries after a list became unreadable: a deadlock,
+	// panic or wrong answer without any injected fault is left to C14.
+	leave := func(what string) *Outcome {
+		out.Skipped = true
+		out.Probes["anomaly_before_any_fault_left_to_C11_C13_C14:"+what]++
+		return out
+	}
 	if res.FreeRunDeadlock {
+		if injectedAt < 0 {
+			return leave("deadlock")
+		}
 		out.Violation = &Violation{Class: "deadlock", Detail: fmt.Sprintf("after %d scheduled steps a task blocked in a lock held by a parked task; the scheduler then let every task run freely (a real, uncontrolled execution) and all unfinished tasks ended up blocked on locks for ever", res.Steps)}
 		return out
 	}
@@ -875,6 +903,9 @@ func runC19Conc(ch *core.Chooser, env *Env, out *Outcome) *Outcome {
 			out.Probes["speculative_run_not_executed_in_this_mode"]++
 		}
 		return out
+	}
+	if injectedAt < 0 && (len(res.Panics) > 0 || res.Deadlock || res.StepCap) {
+		return leave("panic-or-no-progress")
 	}
 	switch {
 	case len(res.Panics) > 0:
@@ -902,14 +933,16 @@ func runC19Conc(ch *core.Chooser, env *Env, out *Outcome) *Outcome {
 		t := truths[r.op]
 		var full string
 		if perr := safely(func() { full = r.res.CanonFull() }); perr != "" {
+			if injectedAt < 0 || r.ret < injectedAt {
+				return leave("panic")
+			}
 			out.Violation = &Violation{Class: "panic:derived:" + opClass(o), Detail: fmt.Sprintf("fault plan %v: evaluating the result of %s panicked\n%s", env.Params, o.Key(), perr)}
 			return out
 		}
 		out.RunHash = fnv(out.RunHash, full)
 		if injectedAt < 0 || r.ret < injectedAt {
 			if full != t.full {
-				out.Violation = &Violation{Class: "prefault-mismatch:" + opClass(o), Detail: fmt.Sprintf("query %s completed at step %d, before the fault (step %d)\n got:  %s\n want: %s", o.Key(), r.ret, injectedAt, full, t.full)}
-				return out
+				return leave("answer")
 			}
 			continue
 		}
